@@ -48,6 +48,7 @@ CHECK = {
         "gen_thorough": _GEN((1, 2, 3, 4)),
         "trace": ("Rpc_Trace", "Rpc_Trace.cfg"),
         "driver_timeout": 900,
+        "repro_full": True,
     }],
     "assumptions": ["getty delivers every package on its own goroutine (task pool); the driver does the same with "
                     "`go session.Deliver(..)`",
